@@ -94,3 +94,17 @@ End Helpers.
 Ltac pf_msg Cd E :=
   unfold msg in E; rewrite <- ?app_assoc in E; apply app_inv_head in E;
   rewrite <- ?app_assoc in E.
+
+Section Helpers32.
+  Context {K : FieldOps} {M : ModOps K} (Cd : CodecOps M) {CL : CodecLaws Cd}.
+  Definition W32 : N := (2 ^ 32)%N.
+  (** [#[size_length = 4] Vec<group element>] is self-delimiting *)
+  Lemma ser_vec32_split_G (gs hs : list M) x y :
+    (N.of_nat (List.length gs) < W32)%N -> (N.of_nat (List.length hs) < W32)%N ->
+    ser_vec32 (map (serG Cd) gs) ++ x = ser_vec32 (map (serG Cd) hs) ++ y -> gs = hs /\ x = y.
+  Proof.
+    intros Lg Lh. unfold ser_vec32. rewrite <- !app_assoc, !map_length. intro E.
+    apply app_eq_len in E; [|unfold be32; now rewrite !be_bytes_length]. destruct E as [E1 E].
+    apply (be_bytes_inj 4) in E1; auto. apply Nat2N.inj in E1. now apply (concat_serG_split Cd).
+  Qed.
+End Helpers32.
